@@ -9,6 +9,7 @@ package sharding
 import (
 	"encoding/binary"
 	"fmt"
+	"reflect"
 	"sort"
 	"strconv"
 	"strings"
@@ -408,17 +409,51 @@ func verifC15BadQuery(rt *rapid.T, c *kit.Case, co *verifSHBCoord, randomness []
 	}
 }
 
+// verifC15Query is one remembered ComputeConsensusGroup question (asked again after later epoch start blocks).
+type verifC15Query struct {
+	randomness []byte
+	round      uint64
+	shard      uint32
+	epoch      uint32
+}
+
+// verifC15CfgIdentity identifies the eligible map object a coordinator currently holds for an epoch (0 = no
+// configuration). Every accepted epoch start block installs a freshly made map, a refused one leaves the
+// configuration untouched, so an unchanged identity after EpochStartPrepare means "block refused". Used only to
+// classify cases, never as an oracle.
+func verifC15CfgIdentity(co *verifSHBCoord, epoch uint32) uintptr {
+	co.Base.mutNodesConfig.RLock()
+	defer co.Base.mutNodesConfig.RUnlock()
+	nc, ok := co.Base.nodesConfig[epoch]
+	if !ok || nc == nil {
+		return 0
+	}
+	nc.mutNodesMaps.RLock()
+	defer nc.mutNodesMaps.RUnlock()
+	if nc.eligibleMap == nil {
+		return 0
+	}
+	return reflect.ValueOf(nc.eligibleMap).Pointer()
+}
+
 // Reproducibility across an epoch change: two nodes (LRU cache / no cache, different own keys) process the
 // same epoch start blocks through EpochStartPrepare / EpochStartAction with the production shuffler; groups for
 // the new and for the still stored previous epochs must agree between the nodes and with the naive sampler.
+//
+// An epoch can be prepared more than once before it is committed: a shard node calls EpochStartPrepare for every
+// valid epoch start metablock it observes whose epoch is not final yet (shardchain trigger, updateTriggerFromMeta ->
+// checkIfTriggerCanBeActivated -> NotifyAllPrepare, on every received metablock), so competing epoch start blocks of
+// the same epoch (fork / rollback of the epoch start block on the metachain) are prepared one after the other, each
+// from the configuration of the current epoch, and only the surviving one is followed by EpochStartAction. Blocks of
+// the epoch being prepared are already verified meanwhile (ComputeConsensusGroup with the new epoch).
 func TestVerifC15_AfterEpochChange(t *testing.T) {
 	kit.Run(t, "C15", kit.Budget{Quick: 1200, Thorough: 12000},
-		"the multi-epoch fixture of C16 (1-3 shards, min nodes 1..4, group <= min nodes, with/without rater, validator info derived from the current configuration with leaving/jailed/new/low-rated entries) drives two nodes through 1-3 epoch changes; after every change (with probability 1/2 a third node is restarted from the state node A saved, via LoadState) 1-4 queries on the new or a still stored older epoch; weights of the reference come from the ratings in the validator info; non-trivial = query on an epoch produced by an epoch change with rater, list longer than g and two different weights; distinct by (list, weights, randomness, round)",
+		"the multi-epoch fixture of C16 (1-3 shards, min nodes 1..4, group <= min nodes, with/without rater, validator info derived from the current configuration with leaving/jailed/new/low-rated entries) drives two nodes through 1-3 epoch changes; every epoch change consists of 1-3 competing epoch start blocks of the same epoch (independently drawn validator info from the same current configuration; randomness equal to or different from the previous block's), each prepared with EpochStartPrepare on node A (LRU cache) and - all of them or only the last - on node B (no cache), the last one followed by EpochStartAction; after every block (after the last one with probability 1/2 a third node is restarted from the state node A saved, via LoadState) 1-3 fresh queries on the prepared or a still stored older epoch plus most of the up to 4 most recently remembered queries again (same randomness, round, shard, epoch - so a query answered under an earlier block of the same epoch is repeated under the later one); weights of the reference come from the ratings in the validator info of the block that is in force; non-trivial = query on an epoch produced by an epoch change with rater, list longer than g and two different weights; distinct by (list, weights, randomness, round)",
 		func(rt *rapid.T, c *kit.Case) {
 			keys := &verifSHBKeyGen{long: rapid.IntRange(0, 3).Draw(rt, "longKeys") == 0}
 			s := verifSHBGenSetup(rt, keys)
 			_, refHash := verifSHBHasher(s.hasherKind)
-			cacheSize := rapid.SampledFrom([]int{1, 2, 1000}).Draw(rt, "lruSize")
+			cacheSize := rapid.SampledFrom([]int{1, 2, 1000, 1000}).Draw(rt, "lruSize")
 			a, err := s.Build(s.selfPK, cacheSize, s.rater)
 			if err != nil {
 				rt.Fatalf("fixture: %v (%s)", err, s)
@@ -454,141 +489,212 @@ func TestVerifC15_AfterEpochChange(t *testing.T) {
 			cur := s.e0
 			nEpochs := rapid.IntRange(1, 3).Draw(rt, "nEpochs")
 			vanished := false
-			for k := 0; k < nEpochs; k++ {
-				gone := verifSHBGone(eligible, waiting, everPlaced)
-				infos, _ := verifSHBGenInfos(rt, s, keys, eligible, waiting, prevLeaving, gone)
-				prevLeaving = map[string]bool{}
-				wNew := map[string]uint32{}
-				for _, in := range infos {
-					if in.List == string(core.LeavingList) {
-						prevLeaving[in.PK] = true
-					}
-					wNew[in.PK] = 1
-					if s.rater {
-						wNew[in.PK] = s.chance.GetChance(in.TempRating)
-						if wNew[in.PK] < minChance {
-							wNew[in.PK] = minChance
-						}
-					}
-				}
-				body, err := verifSHBBody(infos, marsh)
-				if err != nil {
-					rt.Fatalf("fixture: %v", err)
-				}
-				seed := rapid.SliceOfN(rapid.Byte(), 1, 32).Draw(rt, "prevRandSeed")
-				for _, n := range []*verifSHBCoord{a, b} {
-					hdr := verifSHBEpochStartHeader(cur+1, seed)
-					c.NoPanic("C15:epoch-change-panic", func() {
-						n.Base.EpochStartPrepare(hdr, body)
-						n.Base.EpochStartAction(hdr)
-					})
-				}
-				var okA, okB bool
-				eligible, waiting, okA = verifSHBReadCfg(a.NC(), cur+1)
-				_, _, okB = verifSHBReadCfg(b.NC(), cur+1)
-				if okA != okB {
-					c.Violation("C15:epoch-known-to-one-node", "after the same epoch start block epoch %d is configured on node A: %v, on node B: %v (%s)", cur+1, okA, okB, s)
-				}
-				if !okA {
-					c.Class("epoch-refused")
+			var remembered []verifC15Query
+			var history []string
+
+			// ask puts one question to the given nodes and checks every answer against the reference
+			ask := func(q verifC15Query, top uint32, nodes []*verifSHBCoord, again bool) {
+				elQ, _, okQ := verifSHBReadCfg(a.NC(), q.epoch)
+				if !okQ {
+					c.Class("query-epoch-dropped") // older than the stored window
 					return
 				}
-				cur++
-				weightsOf[cur] = wNew
-
-				// a node restarted from the state node A saved at this epoch change (storage bootstrap path)
-				var restarted *verifSHBCoord
-				// (a stored configuration that lost a whole shard - all its eligible validators jailed at once - is
-				// accepted by EpochStartPrepare but refused by LoadState; such histories are not restarted)
-				if len(eligible) < int(s.nbShards)+1 {
-					vanished = true // sticky: the saved registry may still hold an epoch node A already dropped
+				listPK, okShard := elQ[q.shard]
+				if !okShard {
+					c.Class("query-shard-vanished") // remembered query on a shard that the replacing block dissolved
+					return
 				}
-				if vanished {
-					c.Class("restart-skipped-vanished-shard")
+				g := verifC15GroupSize(q.shard, s.gS, s.gM)
+				list := make([]verifSHBVal, len(listPK))
+				weights := make([]uint32, len(listPK))
+				for i, pk := range listPK {
+					w, known := weightsOf[q.epoch][pk]
+					if !known {
+						rt.Fatalf("fixture: no weight known for key %s of epoch %d", verifSHBShort(pk), q.epoch)
+					}
+					list[i] = verifSHBVal{PK: pk, Chances: w}
+					weights[i] = w
 				}
-				if rapid.Bool().Draw(rt, "restart") && !vanished {
-					restarted, err = s.BuildWithStorer("observer-R", 0, s.rater, a.Base.bootStorer)
+				refSeed := []byte(strconv.FormatUint(q.round, 10) + "-" + string(q.randomness))
+				idx := verifC15Naive(refHash, weights, refSeed, g)
+				want := make([]string, len(idx))
+				for i, ix := range idx {
+					want[i] = listPK[ix]
+				}
+				desc := fmt.Sprintf("randomness %q round %d shard %d epoch %d (prepared up to %d, committed %d; asked before: %v), g=%d, eligible %v, weights %v; %s; %s", q.randomness, q.round, q.shard, q.epoch, top, cur, again, g, verifSHBShortList(listPK), weights, s, strings.Join(history, "; "))
+				for ni, n := range nodes {
+					var got []Validator
+					c.NoPanic("C15:panic", func() { got, err = n.NC().ComputeConsensusGroup(q.randomness, q.round, q.shard, q.epoch) })
 					if err != nil {
-						rt.Fatalf("fixture: %v", err)
+						c.Violation("C15:error", "unexpected error %v on node %d (%s)", err, ni, desc)
 					}
-					err = restarted.NC().LoadState(a.Base.GetSavedStateKey())
-					if err != nil {
-						rt.Fatalf("fixture: LoadState: %v", err)
+					pks := verifSHBPubKeys(got)
+					verifC15CheckGroup(c, pks, list, g, desc)
+					if strings.Join(pks, "|") != strings.Join(want, "|") {
+						c.Violation("C15:reference-differs-after-epoch-change", "node %d: got indexes %v want %v (%s)", ni, verifC15Indexes(pks, list), idx, desc)
 					}
-					c.Class("restarted-node")
 				}
+				c.Class("query-ok")
+				if q.epoch < top {
+					c.Class("query-older-epoch")
+				}
+				if again {
+					c.Class("query-asked-again")
+				}
+				distinctW := map[uint32]bool{}
+				for _, w := range weights {
+					distinctW[w] = true
+				}
+				if s.rater && q.epoch > s.e0 && len(listPK) > g && len(distinctW) >= 2 {
+					c.NonTrivial(fmt.Sprint(listPK, weights, q.randomness, q.round))
+					c.Sample("epoch %d (start %d) shard %d g=%d weights=%v randomness=%q round=%d -> %v", q.epoch, s.e0, q.shard, g, weights, q.randomness, q.round, idx)
+				}
+			}
 
-				nQueries := rapid.IntRange(1, 4).Draw(rt, "nQueries")
-				for q := 0; q < nQueries; q++ {
-					back := uint32(rapid.IntRange(0, 2).Draw(rt, "epochBack"))
-					if back > cur-s.e0 {
-						back = cur - s.e0
-					}
-					epoch := cur - back
-					elQ, _, okQ := verifSHBReadCfg(a.NC(), epoch)
-					if !okQ {
-						c.Class("query-epoch-dropped") // older than the stored window
-						continue
-					}
-					// shards known to the coordinator for that epoch (a shard whose eligible validators were all
-					// jailed disappears from the configuration)
-					shards := make([]uint32, 0, len(elQ))
-					for sh := range elQ {
-						shards = append(shards, sh)
-					}
-					sort.Slice(shards, func(i, j int) bool { return shards[i] < shards[j] })
-					if len(shards) < int(s.nbShards)+1 {
-						c.Class("query-epoch-with-vanished-shard")
-					}
-					shard := shards[rapid.IntRange(0, len(shards)-1).Draw(rt, "qShard")]
-					randomness := verifC15Randomness(rt, "rand")
-					round := verifSHBBoundaryU64(rt, "round")
-					g := verifC15GroupSize(shard, s.gS, s.gM)
-					listPK := elQ[shard]
-					list := make([]verifSHBVal, len(listPK))
-					weights := make([]uint32, len(listPK))
-					for i, pk := range listPK {
-						w, known := weightsOf[epoch][pk]
-						if !known {
-							rt.Fatalf("fixture: no weight known for key %s of epoch %d", verifSHBShort(pk), epoch)
+			for k := 0; k < nEpochs; k++ {
+				gone := verifSHBGone(eligible, waiting, everPlaced)
+				nBlocks := rapid.SampledFrom([]int{1, 1, 2, 2, 3}).Draw(rt, "nBlocks")
+				bSeesAll := rapid.Bool().Draw(rt, "nodeBSeesAllBlocks")
+				top := cur + 1
+				var seed []byte
+				var lastInfos []verifSHBInfo
+				for bi := 0; bi < nBlocks; bi++ {
+					last := bi == nBlocks-1
+					infos, _ := verifSHBGenInfos(rt, s, keys, eligible, waiting, prevLeaving, gone)
+					lastInfos = infos
+					wNew := map[string]uint32{}
+					for _, in := range infos {
+						wNew[in.PK] = 1
+						if s.rater {
+							wNew[in.PK] = s.chance.GetChance(in.TempRating)
+							if wNew[in.PK] < minChance {
+								wNew[in.PK] = minChance
+							}
 						}
-						list[i] = verifSHBVal{PK: pk, Chances: w}
-						weights[i] = w
 					}
-					refSeed := []byte(strconv.FormatUint(round, 10) + "-" + string(randomness))
-					idx := verifC15Naive(refHash, weights, refSeed, g)
-					want := make([]string, len(idx))
-					for i, ix := range idx {
-						want[i] = listPK[ix]
+					if bi == 0 || rapid.IntRange(0, 2).Draw(rt, "newRandSeed") != 0 {
+						seed = rapid.SliceOfN(rapid.Byte(), 1, 32).Draw(rt, "prevRandSeed")
 					}
-					desc := fmt.Sprintf("randomness %q round %d shard %d epoch %d (current %d), g=%d, eligible %v, weights %v; %s", randomness, round, shard, epoch, cur, g, verifSHBShortList(listPK), weights, s)
-					nodes := []*verifSHBCoord{a, a, b}
+					history = append(history, fmt.Sprintf("epoch %d block %d/%d (rand %x, node B sees it: %v): %s", top, bi+1, nBlocks, seed, bSeesAll || last, verifSHBDescribeInfos(infos)))
+					if bi > 0 {
+						c.Class("epoch-prepared-again")
+					}
+					procs := []*verifSHBCoord{a}
+					if bSeesAll || last {
+						procs = append(procs, b)
+					}
+					accepted := make([]bool, len(procs))
+					for ni, n := range procs {
+						body, err := verifSHBBody(infos, marsh)
+						if err != nil {
+							rt.Fatalf("fixture: %v", err)
+						}
+						hdr := verifSHBEpochStartHeader(top, append([]byte{}, seed...))
+						before := verifC15CfgIdentity(n, top)
+						c.NoPanic("C15:epoch-change-panic", func() {
+							n.Base.EpochStartPrepare(hdr, body)
+							if last {
+								n.Base.EpochStartAction(hdr)
+							}
+						})
+						accepted[ni] = verifC15CfgIdentity(n, top) != before
+					}
+					if len(procs) == 2 && accepted[0] != accepted[1] {
+						c.Violation("C15:epoch-known-to-one-node", "the same epoch start block of epoch %d was accepted by node A: %v, by node B: %v (%s; %s)", top, accepted[0], accepted[1], s, strings.Join(history, "; "))
+					}
+					if !accepted[0] {
+						// the shuffler (too few nodes) or the coordinator (eligible list below the group size) refused;
+						// the nodes keep whatever they had for that epoch, which is outside the property's domain
+						c.Class("epoch-refused")
+						return
+					}
+					weightsOf[top] = wNew
+					if last {
+						cur = top
+					}
+
+					// a node restarted from the state node A saved at this epoch change (storage bootstrap path)
+					var restarted *verifSHBCoord
+					if last {
+						var okA bool
+						eligible, waiting, okA = verifSHBReadCfg(a.NC(), cur)
+						if !okA {
+							rt.Fatalf("fixture: accepted epoch %d has no configuration", cur)
+						}
+						// (a stored configuration that lost a whole shard - all its eligible validators jailed at once - is
+						// accepted by EpochStartPrepare but refused by LoadState; such histories are not restarted)
+						if len(eligible) < int(s.nbShards)+1 {
+							vanished = true // sticky: the saved registry may still hold an epoch node A already dropped
+						}
+						if vanished {
+							c.Class("restart-skipped-vanished-shard")
+						}
+						if rapid.Bool().Draw(rt, "restart") && !vanished {
+							restarted, err = s.BuildWithStorer("observer-R", 0, s.rater, a.Base.bootStorer)
+							if err != nil {
+								rt.Fatalf("fixture: %v", err)
+							}
+							err = restarted.NC().LoadState(a.Base.GetSavedStateKey())
+							if err != nil {
+								rt.Fatalf("fixture: LoadState: %v", err)
+							}
+							c.Class("restarted-node")
+						}
+					}
+
+					nodes := []*verifSHBCoord{a, a}
+					if bSeesAll || last {
+						nodes = append(nodes, b)
+					}
 					if restarted != nil {
 						nodes = append(nodes, restarted)
 					}
-					for ni, n := range nodes {
-						var got []Validator
-						c.NoPanic("C15:panic", func() { got, err = n.NC().ComputeConsensusGroup(randomness, round, shard, epoch) })
-						if err != nil {
-							c.Violation("C15:error", "unexpected error %v on node %d (%s)", err, ni, desc)
-						}
-						pks := verifSHBPubKeys(got)
-						verifC15CheckGroup(c, pks, list, g, desc)
-						if strings.Join(pks, "|") != strings.Join(want, "|") {
-							c.Violation("C15:reference-differs-after-epoch-change", "node %d: got indexes %v want %v (%s)", ni, verifC15Indexes(pks, list), idx, desc)
+					// questions asked before, again (the answers may have to change: the epoch was prepared again)
+					start := 0
+					if len(remembered) > 4 {
+						start = len(remembered) - 4
+					}
+					for _, q := range remembered[start:] {
+						if rapid.IntRange(0, 3).Draw(rt, "askAgain") != 0 {
+							ask(q, top, nodes, true)
 						}
 					}
-					c.Class("query-ok")
-					if back > 0 {
-						c.Class("query-older-epoch")
+					nQueries := rapid.IntRange(1, 3).Draw(rt, "nQueries")
+					for qi := 0; qi < nQueries; qi++ {
+						back := rapid.SampledFrom([]uint32{0, 0, 0, 1, 2}).Draw(rt, "epochBack")
+						if back > top-s.e0 {
+							back = top - s.e0
+						}
+						epoch := top - back
+						elQ, _, okQ := verifSHBReadCfg(a.NC(), epoch)
+						if !okQ {
+							c.Class("query-epoch-dropped")
+							continue
+						}
+						// shards known to the coordinator for that epoch (a shard whose eligible validators were all
+						// jailed disappears from the configuration)
+						shards := make([]uint32, 0, len(elQ))
+						for sh := range elQ {
+							shards = append(shards, sh)
+						}
+						sort.Slice(shards, func(i, j int) bool { return shards[i] < shards[j] })
+						if len(shards) < int(s.nbShards)+1 {
+							c.Class("query-epoch-with-vanished-shard")
+						}
+						q := verifC15Query{
+							shard:      shards[rapid.IntRange(0, len(shards)-1).Draw(rt, "qShard")],
+							randomness: verifC15Randomness(rt, "rand"),
+							round:      verifSHBBoundaryU64(rt, "round"),
+							epoch:      epoch,
+						}
+						ask(q, top, nodes, false)
+						remembered = append(remembered, q)
 					}
-					distinctW := map[uint32]bool{}
-					for _, w := range weights {
-						distinctW[w] = true
-					}
-					if s.rater && epoch > s.e0 && len(listPK) > g && len(distinctW) >= 2 {
-						c.NonTrivial(fmt.Sprint(listPK, weights, randomness, round))
-						c.Sample("epoch %d (start %d) shard %d g=%d weights=%v randomness=%q round=%d -> %v", epoch, s.e0, shard, g, weights, randomness, round, idx)
+				}
+				prevLeaving = map[string]bool{}
+				for _, in := range lastInfos {
+					if in.List == string(core.LeavingList) {
+						prevLeaving[in.PK] = true
 					}
 				}
 			}
